@@ -31,7 +31,7 @@ def gates(tier):
     return {'list_calls': 4000, 'unordered_calls': 1500, 'ordered_calls': 800, 'multi_list_calls': 600,
             'grouped_calls': 400, 'no_partial_credit_calls': 600, 'permutation_sets': 150,
             'munkres_solves_validated': 2000, 'nontrivial_unordered': 800, 'singlelist_subgrader_calls': 1000,
-            'direct_order_calls': 30000, 'grouped_sparse_calls': 300, 'grouped_calls_group_larger_than_group_count': 300}
+            'direct_order_calls': 30000, 'grouped_multi_calls': 1500, 'grouped_multi_list_calls': 800, 'grouped_no_partial_credit_calls': 400, 'grouped_sparse_calls': 300, 'grouped_calls_group_larger_than_group_count': 300}
 
 
 def install_tap(ctx):
@@ -373,6 +373,104 @@ def run_grouped(ctx):
             ctx.violation('C05:grouped:suboptimal', 'total %r, best possible %r' % (total, best), wit)
 
 
+def run_grouped_multi(ctx):
+    """Grouped layouts with 1-3 alternative answer LISTS and with partial_credit on/off at the outer level."""
+    from mitxgraders import ListGrader
+    rng = ctx.rng
+    for i in range(ctx.n(2400, 30000)):
+        ngroups, size = rng.choice([(2, 2), (2, 2), (2, 3), (3, 2)])
+        n = ngroups * size
+        nlists = rng.choice([1, 2, 2, 3])
+        outer_ordered = rng.random() < 0.5
+        inner_ordered = rng.random() < 0.5
+        partial_credit = rng.random() < 0.6
+        slots = [gi + 1 for gi in range(ngroups) for _ in range(size)]
+        if rng.random() < 0.5:
+            rng.shuffle(slots)
+        boxes = {k: [p for p, v in enumerate(slots) if v == k + 1] for k in range(ngroups)}
+        inputs = ['I%d' % p for p in range(n)]
+        lists, owner, table = [], {}, {}
+        style = rng.choice(['perfect_for_one', 'random', 'random'])
+        for li in range(nlists):
+            groups = []
+            for gi in range(ngroups):
+                grp = []
+                for s_ in range(size):
+                    tok = 'L%dG%dS%d' % (li, gi, s_)
+                    owner[tok] = (li, gi, s_)
+                    grp.append(tok)
+                groups.append(grp)
+            lists.append(groups)
+        if style == 'perfect_for_one':
+            # the submission is entirely right for one of the lists (so partial_credit=False must keep full marks)
+            li = rng.randrange(nlists)
+            gp = list(range(ngroups))
+            if not outer_ordered:
+                rng.shuffle(gp)
+            for k in range(ngroups):
+                sp = list(range(size))
+                if not inner_ordered:
+                    rng.shuffle(sp)
+                for idx, p in enumerate(boxes[k]):
+                    table[('L%dG%dS%d' % (li, gp[k], sp[idx]), inputs[p])] = 1
+        for tok in owner:
+            for inp in inputs:
+                if (tok, inp) not in table and rng.random() < 0.3:
+                    table[(tok, inp)] = rng.choice([0.1, 1 / 3., 0.5, 0.7, 1, 1])
+        inner = ListGrader(subgraders=lib.TableGrader(table=table, ids=True, msg_on_zero=True), ordered=inner_ordered)
+        g = ListGrader(answers=lists[0] if nlists == 1 else tuple(lists), subgraders=inner, ordered=outer_ordered, grouping=slots,
+                       partial_credit=partial_credit)
+        out = lib.call(ctx, g, None, list(inputs))
+        ctx.ev()
+        ctx.count('list_calls')
+        ctx.count('grouped_multi_calls')
+        if nlists > 1:
+            ctx.count('grouped_multi_list_calls')
+        if not partial_credit:
+            ctx.count('grouped_no_partial_credit_calls')
+        wit = {'grouping': slots, 'answer_lists': lists, 'inputs': inputs, 'outer_ordered': outer_ordered, 'inner_ordered': inner_ordered,
+               'outer_partial_credit': partial_credit, 'table': sorted([[a, b, c] for (a, b), c in table.items()]), 'outcome': out.brief()}
+        ctx.nontrivial(wit)
+        if not out.returned:
+            ctx.violation('C05:grouped_multi:raises', repr(out.exc), wit)
+            continue
+        entries = out.value.get('input_list', [])
+        if len(entries) != n:
+            ctx.violation('C05:grouped_multi:result_form', 'expected %d entries' % n, wit)
+            continue
+
+        def list_best(li):
+            def inner_best(ag, k):
+                P = [[table.get(('L%dG%dS%d' % (li, ag, s_), inputs[p]), 0) for p in boxes[k]] for s_ in range(size)]
+                return sum(P[s_][s_] for s_ in range(size)) if inner_ordered else assign.max_profit(P)
+            if outer_ordered:
+                return sum(inner_best(k, k) for k in range(ngroups))
+            return max(sum(inner_best(perm[k], k) for k in range(ngroups)) for perm in itertools.permutations(range(ngroups)))
+        best = max(list_best(li) for li in range(nlists))
+        perfect = abs(best - n) < 1e-9
+        parsed = [parse_entry(e) for e in entries]
+        if any(inp != inputs[p] for p, (a, inp) in enumerate(parsed)):
+            ctx.violation('C05:grouped_multi:entry_at_wrong_position', 'pairs %r' % (parsed,), wit)
+            continue
+        if len(set(owner[a][0] for a, _ in parsed)) != 1 or len(set(a for a, _ in parsed)) != n:
+            ctx.violation('C05:grouped_multi:inconsistent_assignment', 'entries use answers %r' % ([a for a, _ in parsed],), wit)
+            continue
+        earned = sum(table.get((a, inp), 0) for a, inp in parsed)
+        if abs(earned - best) > 1e-9:
+            used = owner[parsed[0][0]][0]
+            ctx.violation('C05:grouped_multi:' + ('suboptimal_list' if abs(list_best(used) - best) > 1e-9 else 'suboptimal_assignment'),
+                          'the reported pairs earn %r, the best answer list / assignment earns %r' % (earned, best), wit)
+            continue
+        for p, e in enumerate(entries):
+            want = table.get(parsed[p], 0)
+            if not partial_credit and not perfect:
+                want = 0
+            if abs(e['grade_decimal'] - want) > 1e-9:
+                ctx.violation('C05:grouped_multi:' + ('no_partial_credit_rule' if not partial_credit else 'entry_grade'),
+                              'entry %d has grade %r, expected %r (all boxes right: %s)' % (p, e['grade_decimal'], want, perfect), wit)
+                break
+
+
 def run_singlelist_subgrader(ctx):
     """ListGrader whose subgrader is a SingleListGrader: every box holds a delimited list."""
     from mitxgraders import ListGrader, SingleListGrader
@@ -476,6 +574,7 @@ def run(ctx):
     run_direct_order(ctx)
     run_flat(ctx)
     run_grouped(ctx)
+    run_grouped_multi(ctx)
     run_singlelist_subgrader(ctx)
     ctx.count('munkres_solves_validated', TAP['solves'])
     for before, out, prob in TAP['bad'][:3]:
